@@ -178,6 +178,7 @@ def run_case(case, chooser, max_steps=100_000, max_time=20000.0, keep_log=False)
     w.cleanup.append(cleanup)
     reason = w.run()
     res.reason = reason
+    res.spinning = getattr(w, "spinning", None)
     res.H = ctx.H
     res.world = w
     res.sched = s
@@ -200,6 +201,16 @@ def _park(s):
     s.block(lambda: False, None, "park", "main")
 
 
+def livelock_violation(res, key=""):
+    """If the run hit the step cap because a task spins inside the tree under test, say so as a violation."""
+    sp = getattr(res, "spinning", None)
+    if res.reason == "step-cap" and sp:
+        return [{"rule": "livelock", "key": f"{sp[0]};{key}",
+                 "detail": f"after {res.sched.step} sync points the world never came to rest: task {sp[1]} of process "
+                           f"{sp[2]} keeps spinning in {sp[0]} ({sp[3]})"}]
+    return []
+
+
 def summarize(res, chooser, nontrivial=True, feats=(), sample=None, violations=()):
     s = res.sched
     return {
@@ -210,6 +221,8 @@ def summarize(res, chooser, nontrivial=True, feats=(), sample=None, violations=(
 
 
 def check_harness(res, allow_reasons=("quiescent",)):
+    if res.reason == "step-cap" and getattr(res, "spinning", None):
+        return  # a task spins inside the code under test: reported by livelock_violation(), not harness trouble
     if res.reason not in allow_reasons:
         raise HarnessError(f"run ended with {res.reason}")
     if res.leaked:
